@@ -931,9 +931,11 @@ class CacheWorld:
         e["observables"] = observe(net, self.t["probes"])
         return digest(e)
 
-    def classes_of(self, s, d, points):
-        """the classes (of map content d) of the reference networks with signature s"""
-        table = self.t["full"] if points else self.t["cheap"]
+    def classes_of(self, s, d, points=True):
+        """the classes (of map content d) of the reference networks with signature s.  Always the full
+        signature (structure + geometry + lookups and directions at the sample points + observables): without
+        the point facts two classes can coincide (ref_points on a map of straight roads)."""
+        table = self.t["full"]
         return sorted({self.t["eff"][k] for k, x in table.items() if x == s and k[0] == d})
 
     # ---- state
@@ -993,7 +995,7 @@ class CacheWorld:
         try:
             self.N._currentFormatVersion = classmethod(lambda cls: v)
             net = self.N.fromPickle(self.cache)
-            c = self.classes_of(self.sig(net, False), d[0], False)
+            c = self.classes_of(self.sig(net, True), d[0], True)
         except Exception:
             return {"k": "corrupt"}
         finally:
@@ -1036,7 +1038,7 @@ class CacheWorld:
             hit = ob.calls[-1:] == ["pickle:ok"] and "parse" not in ob.calls
             obs["outcome"] = "hit" if hit else "parse" if "parse" in ob.calls else "none"
             if net is not None:
-                obs["cls"] = self.classes_of(self.sig(net, hit), self.mapD, hit)
+                obs["cls"] = self.classes_of(self.sig(net, True), self.mapD, True)
                 obs["observables"] = observe(net, self.t["probes"])
             after = open(self.cache, "rb").read() if os.path.exists(self.cache) else None
             obs["cache_rewritten"] = after != before
